@@ -16,6 +16,7 @@ import (
 	"encoding/json"
 	"fmt"
 	"math"
+	"math/big"
 	"sort"
 	"strconv"
 	"strings"
@@ -111,6 +112,9 @@ func ford(f float64) string {
 		return "inf"
 	case math.IsInf(f, -1):
 		return "-inf"
+	}
+	if math.Abs(f) >= 1<<53 {
+		return new(big.Float).SetFloat64(f).Text('f', 0) // the exact integer value of the double
 	}
 	return strconv.FormatFloat(f, 'f', -1, 64)
 }
@@ -277,7 +281,7 @@ func observe(n *node) string {
 		})
 	}
 	out := "val=" + val + " gval=" + gval + " wkt=" + wkt + " wkb=" + wkb + " json=" + js
-	if n.kind == "L" && fin {
+	if n.kind == "L" && fin && maxAbs(n) <= 1<<20 { // the predicates multiply ordinates: lattice domain only
 		ls := g.MustAsLineString()
 		out += " simple=" + flag(ls.IsSimple) + " ring=" + flag(ls.IsRing) + " closed=" + flag(ls.IsClosed)
 	}
@@ -814,6 +818,158 @@ func onRing(ring []xy, p xy) bool {
 	return false
 }
 
+// vertices to be moved onto the origin: touch points first
+func originCandidates(base *node, r *lib.Rng) []xy {
+	var lists [][]xy
+	base.walk(func(ps *[]xy, _ bool) { lists = append(lists, *ps) })
+	seen := map[xy]bool{}
+	var touch, rest []xy
+	for i, l := range lists {
+		for _, v := range l {
+			if seen[v] {
+				continue
+			}
+			seen[v] = true
+			isTouch := false
+			for j, m := range lists {
+				if j != i && onRing(m, v) {
+					isTouch = true
+				}
+			}
+			if isTouch {
+				touch = append(touch, v)
+			} else {
+				rest = append(rest, v)
+			}
+		}
+	}
+	for len(touch) > 5 {
+		i := r.Intn(len(touch))
+		touch = append(touch[:i], touch[i+1:]...)
+	}
+	for k := 0; k < 2 && len(rest) > 0; k++ {
+		i := r.Intn(len(rest))
+		touch = append(touch, rest[i])
+		rest = append(rest[:i], rest[i+1:]...)
+	}
+	return touch
+}
+
+// targeted class: a hole that touches the shell (or another hole) in exactly two points, or in
+// one; one of the touch points is the origin half of the time; all starts and orders come from
+// the group variants
+func genTwoTouch(r *lib.Rng) *node {
+	s := r.Range(4, 8)
+	shell := genBox(0, 0, s, s)
+	lat := boundaryLattice(shell)
+	t1 := lat[r.Intn(len(lat))]
+	if r.Bool() {
+		t1 = xy{0, 0}
+	}
+	t2 := lat[r.Intn(len(lat))]
+	var in []xy
+	for x := 1; x < s; x++ {
+		for y := 1; y < s; y++ {
+			in = append(in, xy{float64(x), float64(y)})
+		}
+	}
+	n := &node{kind: "Y", rings: [][]xy{rotateRing(shell, r.Intn(4))}}
+	switch r.Intn(4) {
+	case 0: // the diagonal diamond of the example: touches two corners / boundary points
+		p, q := in[r.Intn(len(in))], in[r.Intn(len(in))]
+		n.rings = append(n.rings, []xy{t1, p, t2, q, t1})
+	case 1: // one touch point only
+		p, q := in[r.Intn(len(in))], in[r.Intn(len(in))]
+		n.rings = append(n.rings, []xy{t1, p, q, t1})
+	case 2: // two holes sharing two vertices, one of them possibly touching the shell at t1
+		a, b := in[r.Intn(len(in))], in[r.Intn(len(in))]
+		p, q := in[r.Intn(len(in))], in[r.Intn(len(in))]
+		if r.Bool() {
+			a = t1
+		}
+		n.rings = append(n.rings, []xy{a, p, b, a}, []xy{a, q, b, a})
+	default: // two holes, each touching the shell once, the first at t1
+		p, q := in[r.Intn(len(in))], in[r.Intn(len(in))]
+		u, v := in[r.Intn(len(in))], in[r.Intn(len(in))]
+		n.rings = append(n.rings, []xy{t1, p, q, t1}, []xy{t2, u, v, t2})
+	}
+	for i := 1; i < len(n.rings); i++ {
+		n.rings[i] = rotateRing(n.rings[i], r.Intn(len(n.rings[i])-1))
+	}
+	return n
+}
+
+// geometries without polygons (no arithmetic on ordinates in their validation)
+func genNoPoly(r *lib.Rng, depth int) *node {
+	switch r.Intn(5) {
+	case 0:
+		return &node{kind: "P", pts: []xy{gp(r, 0, 5)}}
+	case 1:
+		return &node{kind: "L", pts: genLoose(r, 0, 5, false)}
+	case 2:
+		n := &node{kind: "MP"}
+		for i, k := 0, r.Range(1, 3); i < k; i++ {
+			n.kids = append(n.kids, &node{kind: "P", pts: []xy{gp(r, 0, 5)}})
+		}
+		return n
+	case 3:
+		n := &node{kind: "ML"}
+		for i, k := 0, r.Range(1, 3); i < k; i++ {
+			n.kids = append(n.kids, &node{kind: "L", pts: genLoose(r, 0, 5, false)})
+		}
+		return n
+	default:
+		n := &node{kind: "GC"}
+		for i, k := 0, r.Range(1, 3); i < k; i++ {
+			if depth > 0 {
+				n.kids = append(n.kids, genNoPoly(r, depth-1))
+			} else {
+				n.kids = append(n.kids, &node{kind: "P", pts: []xy{gp(r, 0, 5)}})
+			}
+		}
+		return n
+	}
+}
+
+var specialValues = []float64{math.NaN(), math.Inf(1), math.Inf(-1), math.MaxFloat64, -math.MaxFloat64, 1e308, -1e308}
+
+// one vertex (any position, any type) gets the idx-th pair of special values as its X and Y.
+// Pairs of two large finite values go into geometries without polygons only: the finite-XY rule
+// must accept them, and no product of ordinates is formed there.
+func specialPair(r *lib.Rng, idx int) *node {
+	k := len(specialValues)
+	x, y := specialValues[(idx/k)%k], specialValues[idx%k]
+	bothFinite := !math.IsNaN(x) && !math.IsInf(x, 0) && !math.IsNaN(y) && !math.IsInf(y, 0)
+	var base *node
+	for tries := 0; ; tries++ {
+		if bothFinite {
+			base = genNoPoly(r, 2)
+		} else {
+			base = genAny(r, 2)
+		}
+		total := 0
+		base.walk(func(ps *[]xy, _ bool) { total += len(*ps) })
+		if total > 0 || tries > 20 {
+			break
+		}
+	}
+	total := 0
+	base.walk(func(ps *[]xy, _ bool) { total += len(*ps) })
+	if total == 0 {
+		return &node{kind: "P", pts: []xy{{x, y}}}
+	}
+	pos, i := r.Intn(total), 0
+	base.walk(func(ps *[]xy, _ bool) {
+		for j := range *ps {
+			if i == pos {
+				(*ps)[j] = xy{x, y}
+			}
+			i++
+		}
+	})
+	return base
+}
+
 func genPointNode(r *lib.Rng) *node {
 	if r.Chance(1, 5) {
 		return &node{kind: "P"}
@@ -1018,6 +1174,15 @@ func variants(base *node, r *lib.Rng, maxRot int) []variant {
 		permuteKids(c, r)
 		out = append(out, variant{"perm", c})
 	}
+	// translations that move a vertex of the configuration onto the origin: every vertex that
+	// occurs in two coordinate lists or lies on another list's segment (the touch points), up to
+	// five of them, and two more vertices at random
+	if base.finite() {
+		for _, o := range originCandidates(base, r) {
+			ox, oy := o.x, o.y
+			out = append(out, variant{"trans0", mapXY(base, func(p xy) xy { return xy{p.x - ox, p.y - oy} })})
+		}
+	}
 	// integer translation inside |c| <= 2^10, axis reflections
 	room := int(1024 - maxAbs(base))
 	dx, dy := float64(r.Range(-room, room)), float64(r.Range(-room, room))
@@ -1095,7 +1260,7 @@ func main() {
 	// every line carries the base geometry of its group and the base verdicts (bval, bsimple,
 	// bring), so that a single line is a complete replay of a representation-independence failure
 	baseObs, baseText := map[string]string{}, ""
-	emit := func(group int, k int, class, vname string, n *node) {
+	emit := func(group string, k int, class, vname string, n *node) {
 		obs := observe(n)
 		if k == 0 {
 			baseText = n.String()
@@ -1110,7 +1275,7 @@ func main() {
 		if v, ok := baseObs["simple"]; ok {
 			obs += " bsimple=" + v + " bring=" + baseObs["ring"]
 		}
-		fmt.Fprintf(w, "%d.%d\t%s\t%d\t%s\t%s\t%s\t%s\n", group, k, class, group, vname, n.String(), obs, baseText)
+		fmt.Fprintf(w, "%s.%d\t%s\t%s\t%s\t%s\t%s\t%s\n", group, k, class, group, vname, n.String(), obs, baseText)
 		lines++
 		variantsHist[vname]++
 		kinds[n.kind]++
@@ -1120,7 +1285,11 @@ func main() {
 		r := root.Fork()
 		var base *node
 		class := ""
-		switch group % 16 {
+		switch group % 18 {
+		case 16:
+			class, base = "two_touch", genTwoTouch(r)
+		case 17:
+			class, base = "special_pairs", nil
 		case 15:
 			class, base = "nested_touch", genNestedTouch(r)
 		case 12, 13:
@@ -1143,9 +1312,17 @@ func main() {
 			class, base = "nonfinite", nonFinite(genAny(r, 2), r)
 		}
 		classes[class]++
-		emit(group, 0, class, "base", base)
+		gid := strconv.Itoa(group)
+		if class == "special_pairs" {
+			// one case per (pair of special values, vertex position); no representation changes
+			for k := 0; k < 14; k++ {
+				emit(gid+"_"+strconv.Itoa(k), 0, class, "base", specialPair(r, group*14+k))
+			}
+			continue
+		}
+		emit(gid, 0, class, "base", base)
 		for k, v := range variants(base, r, maxRot) {
-			emit(group, k+1, class, v.name, v.n)
+			emit(gid, k+1, class, v.name, v.n)
 		}
 	}
 	stats := map[string]interface{}{"classes_groups": classes, "variants": variantsHist, "kinds": kinds,
